@@ -258,6 +258,28 @@ RECURSIVE Rev(_)
 Rev(s) == IF s = <<>> THEN <<>> ELSE Append(Rev(Tail(s)), Head(s))
 Reordered(y) == IF y.kind = "equipment" THEN [y EXCEPT !.edfa.nf_coef = Rev(@)] ELSE y
 KeyedListOrderIrrelevant(d) == Y2L(Reordered(L2Y(d))) = d
+\* Two keyed lists become PARALLEL VECTORS in the legacy form (raman_coefficient g0 / frequency_offset, per-frequency
+\* loss value / frequency).  Listing their entries in another order lists both vectors in that order: what must be
+\* kept is the pairing - each g0 with its offset, each loss with its frequency - and everything else unchanged.
+Pairs(xs, ys) == {<<xs[i], ys[i]>> : i \in 1..(IF Len(xs) <= Len(ys) THEN Len(xs) ELSE Len(ys))}
+NoVectors(x) == [x EXCEPT !.fiber.raman.g0 = <<>>, !.fiber.raman.offsets = <<>>, !.fiber.loss.freqs = <<>>, !.fiber.loss.vals = <<>>]
+SameUpToVectorOrder(a, b) ==
+  IF a.kind # "topology" THEN a = b ELSE
+    /\ NoVectors(a) = NoVectors(b)
+    /\ Len(a.fiber.raman.g0) = Len(b.fiber.raman.g0) /\ Len(a.fiber.raman.offsets) = Len(b.fiber.raman.offsets)
+    /\ Len(a.fiber.raman.g0) = Len(a.fiber.raman.offsets)
+    /\ Pairs(a.fiber.raman.offsets, a.fiber.raman.g0) = Pairs(b.fiber.raman.offsets, b.fiber.raman.g0)
+    /\ Len(a.fiber.loss.freqs) = Len(b.fiber.loss.freqs) /\ Len(a.fiber.loss.vals) = Len(b.fiber.loss.vals)
+    /\ Len(a.fiber.loss.freqs) = Len(a.fiber.loss.vals)
+    /\ Pairs(a.fiber.loss.freqs, a.fiber.loss.vals) = Pairs(b.fiber.loss.freqs, b.fiber.loss.vals)
+\* Documents the YANG models cannot express although the legacy vocabulary can write them: two effective-freq-slots
+\* that both leave N free (N is the key of that list), an explicit channel list AND a channel count (the two cases of
+\* a choice).  The loaders validate every document against the models, so they may refuse such a document in either
+\* form; the clauses apply as soon as they accept it ("a document that either form accepts means the same in both").
+OutsideYangModel(d) ==
+  \/ d.kind = "service" /\ \E i \in 1..Len(d.reqs) :
+        Cardinality({k \in 1..Len(d.reqs[i].slots) : d.reqs[i].slots[k].N.t = "null"}) > 1
+  \/ d.kind = "simparams" /\ d.channels # <<>> /\ d.nchan.t = "num"
 
 \* alias clause, stated on an OBSERVED library `lib` (a set of [cat, key, reports, pid]: the entry found under
 \* `key` reports the name `reports` and carries the parameter set number `pid`): every name of a declared entry is
